@@ -55,9 +55,25 @@ enum Role {
     New,
     Vanished,
     ChangedBad,
+    /// never succeeded and no longer published by the parent: cleanup removes its header file and,
+    /// being alone in module 2, the module copy
+    VanishedNeverOk,
 }
 
-const ROLES: [Role; 8] = [Role::Changed, Role::Unchanged, Role::NeverOk, Role::LateOk, Role::New, Role::Vanished, Role::ChangedBad, Role::Changed];
+const ROLES: [Role; 9] = [Role::Changed, Role::Unchanged, Role::NeverOk, Role::LateOk, Role::New, Role::Vanished, Role::ChangedBad, Role::VanishedNeverOk, Role::Changed];
+
+/// The fixed shape of the covering scenario: every role once, all below one changed root, one grandchild.
+const COVERING: [(Option<usize>, Role); 9] = [
+    (None, Role::Changed),
+    (Some(0), Role::Unchanged),
+    (Some(0), Role::NeverOk),
+    (Some(0), Role::LateOk),
+    (Some(0), Role::New),
+    (Some(0), Role::Vanished),
+    (Some(0), Role::ChangedBad),
+    (Some(0), Role::VanishedNeverOk),
+    (Some(1), Role::Changed),
+];
 
 fn bad_fault(d: &mut D) -> PpFault {
     let k = d.below(4) as u8;
@@ -66,22 +82,34 @@ fn bad_fault(d: &mut D) -> PpFault {
 
 /// Two-step scenario: step 0 builds the pre-state, step 1 is the victim run.
 pub fn scenario(words: &[u16]) -> (Scenario, Vec<String>) {
+    scenario_with(words, None)
+}
+
+/// `shape`: fixed parents and roles (objects, faults and modules still come from the genome).
+fn scenario_with(words: &[u16], shape: Option<&[(Option<usize>, Role)]>) -> (Scenario, Vec<String>) {
     let mut d = D::new(words);
     let p = Profile { max_objs: 3, obj_faults: false, pp_faults: false, cert_faults: false, ..Default::default() };
     let mut cfg = Cfg { threads: 1, ..Default::default() };
     cfg.stale = d.pick(&[0u8, 2]);
     cfg.unsafe_vrps = d.pick(&[2u8, 0]);
     let ntals = 1 + d.below(2);
-    let ncas = ntals + 2 + d.below(4);
+    let ncas = match shape {
+        Some(s) => s.len(),
+        None => ntals + 2 + d.below(4),
+    };
     let mut cas: Vec<Ca> = Vec::new();
     let mut roles: Vec<Role> = Vec::new();
     for i in 0..ncas {
-        let parent = if i < ntals { None } else { Some(d.below(i)) };
+        let mut parent = if i < ntals { None } else { Some(d.below(i)) };
         let mut role = if parent.is_none() { d.pick(&[Role::Changed, Role::Changed, Role::Unchanged]) } else { d.pick(&ROLES) };
-        if matches!(role, Role::New | Role::Vanished) && roles[parent.unwrap()] != Role::Changed {
+        if let Some(s) = shape {
+            parent = s[i].0;
+            role = s[i].1;
+        }
+        if matches!(role, Role::New | Role::Vanished | Role::VanishedNeverOk) && roles[parent.unwrap()] != Role::Changed {
             role = Role::Changed;
         }
-        let module = d.below(2);
+        let module = if role == Role::VanishedNeverOk { 2 } else { d.below(2) };
         let mut versions: Vec<Version> = (0..2)
             .map(|v| {
                 let mut ver = decode_version(&mut d, &p, v);
@@ -94,7 +122,7 @@ pub fn scenario(words: &[u16]) -> (Scenario, Vec<String>) {
             })
             .collect();
         match role {
-            Role::NeverOk => {
+            Role::NeverOk | Role::VanishedNeverOk => {
                 versions[0].fault = Some(bad_fault(&mut d));
                 versions[1].fault = Some(bad_fault(&mut d));
             }
@@ -112,7 +140,7 @@ pub fn scenario(words: &[u16]) -> (Scenario, Vec<String>) {
         if let Some(p) = cas[i].parent {
             match roles[i] {
                 Role::New => cas[p].versions[0].omit_children.push(i),
-                Role::Vanished => cas[p].versions[1].omit_children.push(i),
+                Role::Vanished | Role::VanishedNeverOk => cas[p].versions[1].omit_children.push(i),
                 _ => {}
             }
         }
@@ -233,6 +261,11 @@ fn prepare(sc: &Scenario, roles: Vec<String>, bin: &Path) -> Result<Prepared, St
     let mut model = ModelState::default();
     world.publish(&sc.steps[0]);
     let exp0 = model_step(sc, &sc.steps[0], &mut model);
+    // start shortly before a second boundary: the header of a point that never succeeded survives
+    // cleanup only if the attempt falls into a later second than the start of the run, and the
+    // victim can take the "last attempt" re-write path only if the header survived
+    let sub = std::time::SystemTime::now().duration_since(std::time::UNIX_EPOCH).map(|d| d.subsec_millis()).unwrap_or(0);
+    std::thread::sleep(Duration::from_millis(((1900 - sub as u64) % 1000) as u64));
     let out0 = world.run(false, &ex).map_err(|e| format!("pre-state run: {}", e))?;
     if out0.payload != exp0.payload {
         return Err("model_mismatch_pre_state".into());
@@ -509,7 +542,10 @@ fn eval_point(p: &Prepared, k: u64, skip_known: bool) -> PointOutcome {
             }
             for ca in 0..sc.cas.len() {
                 let st = point_state(sc, &paths.cache, ca);
-                if st != p.ref_states[ca] {
+                // whether the header of a point that never succeeded survives cleanup depends on
+                // the second boundary (retain compares a whole-second time stamp): both mean "nothing stored"
+                let nothing = |s: &PointState| matches!(s, PointState::Absent | PointState::NeverSucceeded);
+                if st != p.ref_states[ca] && !(nothing(&st) && nothing(&p.ref_states[ca])) {
                     out.failures.push((
                         format!("C23/next-run-store-differs/{}", out.label),
                         format!("{}: after the next normal run the stored point of ca{} is {}, after the never-interrupted run it is {}", at, ca, describe(&st, &p.exp_views[ca]), describe(&p.ref_states[ca], &p.exp_views[ca])),
@@ -543,6 +579,9 @@ fn evaluate(ctx: &Ctx, rep: &mut Report, p: &Prepared, points: &[u64], skip_know
     let outs = parallel_map(points.len(), WORKERS, |i| eval_point(p, points[i], skip_known));
     let classes = scenario_classes(p);
     for (k, mut o) in points.iter().zip(outs) {
+        if std::env::var_os("RV_DEBUG").is_some() {
+            eprintln!("C23 debug: k={} label={} killed={} dropped={:?} excluded={:?} classes={:?} failures={:?}", k, o.label, o.killed, o.dropped, o.excluded, o.info.classes, o.failures.iter().map(|f| &f.0).collect::<Vec<_>>());
+        }
         let case = Tagged { sub: "kill".to_string(), case: KillCase { sc: p.sc.clone(), k: *k } };
         for key in &o.excluded {
             rep.exclude_known(key);
@@ -578,14 +617,8 @@ fn evaluate(ctx: &Ctx, rep: &mut Report, p: &Prepared, points: &[u64], skip_know
 
 /// The fixed scenario of the directed representatives (simplest genome).
 fn directed_scenario() -> (Scenario, Vec<String>) {
-    let (mut sc, mut roles) = scenario(&[0u16; 8]);
-    // the last CA appears only in version 2 of its parent
-    let j = sc.cas.len() - 1;
-    if let Some(p) = sc.cas[j].parent {
-        sc.cas[p].versions[0].omit_children.push(j);
-        roles[j] = "New".into();
-    }
-    (sc, roles)
+    // one changed root and one child that appears only in version 2: a single processing order
+    scenario_with(&[0u16; 8], Some(&[(None, Role::Changed), (Some(0), Role::New)]))
 }
 
 pub fn run(ctx: &Ctx, rep: &mut Report, replay: Option<&serde_json::Value>) {
@@ -616,11 +649,12 @@ pub fn run(ctx: &Ctx, rep: &mut Report, replay: Option<&serde_json::Value>) {
         return;
     }
     let n_scen = ctx.tier.pick(3usize, 40);
-    let genomes = sample_strategy(&genome(120), ctx.seed_for("scenarios"), n_scen);
+    let genomes = sample_strategy(&genome(160), ctx.seed_for("scenarios"), n_scen);
     let mut per_scenario = Vec::new();
     let mut all_points = true;
     for (n, g) in genomes.iter().enumerate() {
-        let (sc, roles) = scenario(g);
+        // scenario 0 of every run has the covering shape (every role once); the others are free
+        let (sc, roles) = if n == 0 { scenario_with(g, Some(&COVERING)) } else { scenario(g) };
         let p = match prepare(&sc, roles, &bin) {
             Ok(p) => p,
             Err(e) if e.starts_with("model_mismatch") || e.starts_with("watchdog") => {
